@@ -189,7 +189,9 @@ def soft_threshold(f, tval):
     thresholded : ndarray
     '''
 
-    f = f * (np.abs(f) > tval)
+    # not np.abs(f) > tval: abs wraps at the most negative value of a signed
+    # integer dtype, which was then zeroed instead of shrunk
+    f = f * ((f > tval) | (f < -tval))
     step = tval
     if f.dtype.kind in 'iu' and tval == int(tval):
         # keep the products in f's dtype: an int64 product cannot be
